@@ -131,14 +131,14 @@ def spread_case(draw):
                 roll=draw(st.integers(0, n - 1)))
 
 
-def ref_moments(dirs, dm, dspr):
-    """Independent n-point evaluation of cos^2s((theta-dm)/2): discrete mean direction and spread."""
+def ref_moments(dirs, dm, dspr, under_90=False):
+    """Independent n-point evaluation of cos^2s((theta-dm)/2) (optionally cut beyond 90 deg): discrete mean direction and spread."""
     s = 2.0 / math.radians(dspr) ** 2 - 1.0
     g = []
     for t in dirs:
         dth = abs(t - dm) % 360.0
         dth = min(dth, 360.0 - dth)
-        g.append(math.cos(0.5 * math.radians(dth)) ** (2 * s))
+        g.append(0.0 if under_90 and dth > 90.0 else math.cos(0.5 * math.radians(dth)) ** (2 * s))
     tot = math.fsum(g)
     sn = math.fsum(gi * math.sin(math.radians(270.0 - t)) for gi, t in zip(g, dirs))
     cs = math.fsum(gi * math.cos(math.radians(270.0 - t)) for gi, t in zip(g, dirs))
@@ -170,10 +170,14 @@ def check_spread(case, ctx):
     if not np.allclose(tot, 1.0, rtol=1e-9, atol=0):
         raise Violation("normalisation", "%s sums to %s over the circle (n=%d, dm=%s, dspr=%s)" % (func, np.unique(np.round(tot, 9))[:4], n, case["dm"], case["dspr"]))
     seam = any(min(x % 360.0, 360.0 - x % 360.0) <= dd for x in case["dm"])
-    if func == "cartwright":
+    u90 = func == "cartwright_under90"
+    if u90 and any(abs(min(abs(t - x) % 360.0, 360.0 - abs(t - x) % 360.0) - 90.0) < 1e-6 for t in dirs for x in case["dm"]):
+        ctx.label("bin-exactly-at-90deg(normalisation only)")
+    elif func in ("cartwright", "cartwright_under90"):
         # 2D spectrum = shape x spreading: integrates back to the shape; measured dm / dspr equal the request
+        # (with the cut beyond 90 deg the function stays symmetric about dm, so the mean direction still does; the spread is narrower)
         with ctx.lib("construct_partition"):
-            e2 = construct_partition("jonswap", "cartwright", freq_kwargs=dict(freq=f, fp=float(f[len(f) // 3]), hs=_param(case, "hs")), dir_kwargs=dict(dir=dirs, dm=_param(case, "dm"), dspr=_param(case, "dspr")))
+            e2 = construct_partition("jonswap", "cartwright", freq_kwargs=dict(freq=f, fp=float(f[len(f) // 3]), hs=_param(case, "hs")), dir_kwargs=dict(dir=dirs, dm=_param(case, "dm"), dspr=_param(case, "dspr"), **(dict(under_90=True) if u90 else {})))
             e1 = F.jonswap(freq=f, fp=float(f[len(f) // 3]), hs=_param(case, "hs"))
             one = e2.spec.oned()
             mdm, mds, mhs = e2.spec.dm(), e2.spec.dspr(), e2.spec.hs()
@@ -183,7 +187,9 @@ def check_spread(case, ctx):
         for k in range(len(case["dm"])):
             if abs(mhs[k] - case["hs"][k]) > 1e-9 * case["hs"][k]:
                 raise Violation("hs-2d", "2D spectrum Hs %r, requested %r" % (mhs[k], case["hs"][k]))
-            rdm, rds = ref_moments(dirs, case["dm"][k], case["dspr"][k])
+            rdm, rds = ref_moments(dirs, case["dm"][k], case["dspr"][k], under_90=u90)
+            if u90:
+                rds = case["dspr"][k]
             bdm = min(abs(rdm - case["dm"][k]) % 360.0, 360.0 - abs(rdm - case["dm"][k]) % 360.0)
             bds = abs(rds - case["dspr"][k])
             if max(bdm, bds) > 0.05:
@@ -193,7 +199,7 @@ def check_spread(case, ctx):
             ddm = min(ddm, 360.0 - ddm)
             if ddm > bdm + 1e-6:
                 raise Violation("dm", "requested mean direction %r, measured %r (n=%d, spread %r; n-point rule error bound %r)" % (case["dm"][k], mdm[k], n, case["dspr"][k], bdm))
-            if abs(mds[k] - case["dspr"][k]) > bds + 1e-6:
+            if not u90 and abs(mds[k] - case["dspr"][k]) > bds + 1e-6:
                 raise Violation("dspr", "requested spread %r, measured %r (n=%d; bound %r)" % (case["dspr"][k], mds[k], n, bds))
     ctx.nt(seam or case["arr"])
     ctx.label("func=" + func, "n=%d" % n, "dm-near-seam" if seam else "dm-away", "params=%s" % ("DataArray" if case["arr"] else "scalar"))
